@@ -154,7 +154,7 @@ def run(rng, tier, model_ok):
             mismatches.append({"tag": cases[i][0], "input": vlib.safe_text(cases[i][1] if cases[i][0] == 3 else cases[i][1][3:]), "model": got[:30], "impl": cases[i][2][:30]})
     nontrivial = {s for s in lits if sum([s[0] in "+-", "." in s, "e" in s.lower(), bool(re.match(r"^[+-]?0\d", s))]) >= 2}
     return {
-        "evaluations": len(lits) * 3 + len(sweep), "distinct_nontrivial": len(nontrivial),
+        "evaluations": len(lits) * 3 + len(sweep) + len(together), "distinct_nontrivial": len(nontrivial),
         "rule": "every well-formed literal of length <= %d over digits {0,1,9}, sign, point, e/E enumerated from the grammar (number parser, "
                 "query, query with %%), random literals with up to 300 digits, several literals in one query (twins differing in one feature, side by side and multiplied), and every string of length <= %d over that alphabet "
                 "plus %% for the number-parser correspondence; non-trivial = distinct literals combining at least two of sign, "
@@ -162,7 +162,7 @@ def run(rng, tier, model_ok):
         "samples": [wf[len(wf) // 3], wf[-5], longs[0][:80]],
         "mismatches": mismatches, "failures": failures,
         "extra": {"well_formed_enumerated": len(wf), "exhaustive": True, "exhaustive_bound": "length <= %d" % maxlen,
-                  "random_long_literals": len(longs), "malformed_sweep_strings": len(sweep),
+                  "random_long_literals": len(longs), "several_literals_in_one_query": len(together), "malformed_sweep_strings": len(sweep),
                   "model_cases_evaluated_in_coq": len(cases)},
     }
 
